@@ -565,6 +565,13 @@ func (s *c14Session) hist(h c14Hist) {
 		rn = s.rnames[((h.R%s.in.NRem)+s.in.NRem)%s.in.NRem]
 	}
 	switch h.K {
+	case "pack":
+		// stock git packs the refs (git gc / pack-refs): the loose ref files disappear
+		if out, err := exec.Command("git", "-C", s.mpath, "pack-refs", "--all").CombinedOutput(); err != nil {
+			s.tags["pack-refs-failed:"+string(out)] = true
+		} else {
+			s.tags["packed-refs"] = true
+		}
 	case "new":
 		if h.Kind == "ident" {
 			s.newIdent(h)
@@ -841,20 +848,20 @@ func (s *c14Session) observe() *c14Obs {
 		defer r.Close()
 		repo = r
 	}
-	names, err := repo.ListRefs("refs/")
+	// refs as stock git sees them on disk (go-git keeps a packed-refs view cached by modification time, which can
+	// lag behind its own rewrites for an instant; the on-disk truth is what the property is about)
+	out, err := exec.Command("git", "-C", s.mpath, "for-each-ref", "--format=%(refname) %(objectname)").CombinedOutput()
 	if err != nil {
-		s.fail("ListRefs: %v", err)
+		s.fail("for-each-ref: %v %s", err, out)
 		return o
 	}
-	sort.Strings(names)
-	for _, n := range names {
-		h, err := repo.ResolveRef(n)
-		if err != nil {
-			s.fail("ResolveRef %s: %v", n, err)
+	for _, line := range strings.Split(strings.TrimSpace(string(out)), "\n") {
+		f := strings.Fields(line)
+		if len(f) != 2 {
 			continue
 		}
-		k, l, id := s.classifyRef(n)
-		o.Refs = append(o.Refs, c14Ref{k, l, id, string(h)})
+		k, l, id := s.classifyRef(f[0])
+		o.Refs = append(o.Refs, c14Ref{k, l, id, f[1]})
 	}
 	all, err := repo.LocalConfig().ReadAll("")
 	if err != nil {
@@ -1486,6 +1493,9 @@ func genC14(r *Rand, combo int, thorough bool) c14Input {
 		rr := r.Intn(3)
 		in.Hist = append(in.Hist, newEnt("H"), c14Hist{K: "push", Who: "H", R: rr}, c14Hist{K: "fetch", Who: "M", R: rr})
 	}
+	if r.Chance(1, 4) {
+		in.Hist = append(in.Hist, c14Hist{K: "pack", Who: "M"})
+	}
 	if r.Chance(3, 4) {
 		in.Follow = append(in.Follow, "again")
 	}
@@ -1553,6 +1563,23 @@ func (c14Driver) Gen(r *Rand, tier string) []json.RawMessage {
 	off := r.Intn(6)
 	for i := 0; i < n; i++ {
 		res = append(res, mustJSON(genC14(r, i+off, tier == "thorough")))
+	}
+	// targeted stream: everything packed, then RemoveAll through the cache / wipe (the sub-caches remove their
+	// entities concurrently: a few percent of such runs lost a removal before the repair)
+	np := 60
+	if tier == "thorough" {
+		np = 600
+	}
+	for i := 0; i < np; i++ {
+		in := c14Input{NRem: r.Intn(2), User: r.Bool(), Mode: []string{"cache", "cli"}[r.Intn(2)], Act: "rmall", Kind: "bug", Follow: []string{"again", "reopen"}}
+		if in.Mode == "cli" {
+			in.Act = "wipe"
+		}
+		for k, nb := 0, r.Range(2, 5); k < nb; k++ {
+			in.Hist = append(in.Hist, c14Hist{K: "new", Who: "M", Kind: "bug"})
+		}
+		in.Hist = append(in.Hist, c14Hist{K: "new", Who: "M", Kind: "ident"}, c14Hist{K: "edit", Who: "M", E: r.Intn(4)}, c14Hist{K: "push", Who: "M"}, c14Hist{K: "pack", Who: "M"})
+		res = append(res, mustJSON(in))
 	}
 	return res
 }
